@@ -416,6 +416,13 @@ class Deployment:
             el.value = el._value
             return f"republish-{kind}"
         val = python_value(kind, op["val"])
+        if t == "reset":
+            # the silent setter drivers use to sync an element with the hardware (typically from a Read handler): nothing is
+            # published, the next definition / update must show the new value
+            if kind not in ("Text", "Number", "Light"):
+                return "noop"
+            el.reset_value(val)
+            return f"reset-{kind}"
         if t == "set_value":
             el.set_value(val)
             return f"set_value-{kind}"
